@@ -167,10 +167,14 @@ fn write_member(dir: &Path, pkg: &str, exec: bool, cases: &[&ProbeCase]) {
 
 /// Number of member crates a batch is split into (cargo builds members in parallel).
 fn shard_count(n: usize) -> usize {
+    // (large batches: more, smaller members - a member of 1 000+ modules makes rustc use several GiB, and 16 of them
+    // run at once)
     if n <= 40 {
         1
-    } else {
+    } else if n <= 2400 {
         (n / 40).clamp(2, 16)
+    } else {
+        (n / 150).clamp(16, 96)
     }
 }
 
